@@ -150,9 +150,6 @@ package headers
 //@ trusted func (*Branch).IntersectHash
 //@   modifies nothing
 
-//@ trusted func (Branch).Target
-//@   modifies nothing
-
 //@ trusted func (*Repository).sendBranchUpdate
 //@   modifies allchans(*wire.BlockHeader)
 
@@ -176,3 +173,47 @@ package headers
 //@   loop 4
 //@     modifies allchans(*wire.BlockHeader)
 //@     invariant (-1 <= rangeindex && rangeindex < len(repo.newHeadersChannels)) || (len(repo.newHeadersChannels) == 0 && rangeindex == -1)
+
+// ---------------------------------------------------------------------------------------------------
+// Proof of work (C02). The oracle is the network's difficulty adjustment algorithm: median-of-three endpoints
+// chosen by the reference three-compare sorting network, signed time span clamped to [72,288]*600 seconds,
+// projected work -> target with the dependency's conversion, capped at MaxWork.
+
+//@ pure func ancv(b Branch, h int) *HeaderData = ite(h > b.parentHeight, inBranch(b, h), anc(b.parent, h))
+//@ pure func tm(d *HeaderData) int = d.Header.Timestamp
+
+// suitable3: the reference GetSuitableBlock on (h-2, h-1, h):
+//   if t0 > t2 swap(0,2); if t0 > t1 swap(0,1); if t1 > t2 swap(1,2); return [1]
+//@ pure func net1a(x *HeaderData, y *HeaderData, z *HeaderData) *HeaderData = ite(tm(x) > tm(z), z, x)
+//@ pure func net1c(x *HeaderData, y *HeaderData, z *HeaderData) *HeaderData = ite(tm(x) > tm(z), x, z)
+//@ pure func net2a(x *HeaderData, y *HeaderData, z *HeaderData) *HeaderData = ite(tm(net1a(x, y, z)) > tm(y), y, net1a(x, y, z))
+//@ pure func net2b(x *HeaderData, y *HeaderData, z *HeaderData) *HeaderData = ite(tm(net1a(x, y, z)) > tm(y), net1a(x, y, z), y)
+//@ pure func net3b(x *HeaderData, y *HeaderData, z *HeaderData) *HeaderData = ite(tm(net2b(x, y, z)) > tm(net1c(x, y, z)), net1c(x, y, z), net2b(x, y, z))
+//@ pure func suitable3(b Branch, h int) *HeaderData = net3b(ancv(b, h-2), ancv(b, h-1), ancv(b, h))
+//@ pure func have3(b Branch, h int) bool = ancv(b, h) != nil && ancv(b, h-1) != nil && ancv(b, h-2) != nil
+
+//@ pure func clampSpan(t int) int = ite(t < 72*600, 72*600, ite(t > 288*600, 288*600, t))
+//@ pure func daaDefined(b Branch, h int) bool = have3(b, h-1) && have3(b, h-145)
+//@ pure func daaRaw(b Branch, h int) int = workOfDiff(((W(suitable3(b, h-1)) - W(suitable3(b, h-145))) * 600) / clampSpan(tm(suitable3(b, h-1)) - tm(suitable3(b, h-145))))
+//@ pure func daa(b Branch, h int) int = ite(daaRaw(b, h) > bigv(bitcoin.MaxWork), bigv(bitcoin.MaxWork), daaRaw(b, h))
+
+//@ func (Branch).TimeAndWork
+//@   ensures [C02] ancv(b, height) == nil ==> result2 == ErrHeaderDataNotFound
+//@   ensures [C02] ancv(b, height) != nil ==> result2 == nil && result0 == ancv(b, height).Header.Timestamp && result1 == ancv(b, height).AccumulatedWork
+//@   modifies nothing
+
+//@ func (Branch).MedianTimeAndWork
+//@   requires count == 3
+//@   sortlen 3
+//@   ensures [C02.median-defined] (result2 == nil) == have3(b, height)
+//@   ensures [C02.median-of-three] result2 == nil ==> result0 == tm(suitable3(b, height)) && result1 == suitable3(b, height).AccumulatedWork
+//@   modifies nothing
+//@   loop 1
+//@     modifies elems(list)
+//@     invariant 0 <= i && i <= count && height == atentry(height) - i && len(list) == count && sameregion(list)
+//@     invariant forall(k, 0, i, ancv(b, atentry(height) - k) != nil && list[count-k-1] != nil && loopfresh(list[count-k-1]) && list[count-k-1].time == tm(ancv(b, atentry(height) - k)) && list[count-k-1].work == ancv(b, atentry(height) - k).AccumulatedWork)
+
+//@ func (Branch).Target
+//@   ensures [C02.target-defined] (result1 == nil) == daaDefined(b, height)
+//@   ensures [C02.target] result1 == nil ==> result0 != nil && bigv(result0) == daa(b, height)
+//@   modifies nothing
